@@ -428,7 +428,21 @@ func Decode1(name string, b []byte, strict bool) (res string) {
 	if err != nil {
 		return "err " + ErrName(err)
 	}
-	return "ok " + corr.Hex(v.Encode())
+	enc := v.Encode()
+	// the decoded value owns its bytes: the caller's buffer is reused for the next message (a receive loop, a pooled
+	// buffer) without the value changing - every decode of this harness overwrites its input afterwards
+	for i := range b {
+		b[i] ^= 0xa5
+	}
+	enc2 := v.Encode()
+	for i := range b {
+		b[i] ^= 0xa5
+	}
+	if !bytes.Equal(enc, enc2) {
+		// `c08-decoded-value-aliases-input`: reported through the result line (the model answers `ok <hex>`)
+		return fmt.Sprintf("aliases-input %x -> %x", enc, enc2)
+	}
+	return "ok " + corr.Hex(enc)
 }
 
 func (prop) RunImpl(c corr.Case) ([]string, []corr.Fail) {
